@@ -7,7 +7,7 @@
 
 #![allow(dead_code)]
 
-pub use crate::ctx::{ite_lt, lit, Ctx, S};
+pub use crate::ctx::{fresh, ite_lt, lit, Ctx, S};
 pub use neurons::activation::Activation;
 pub use neurons::feedback::Accumulation;
 pub use neurons::network::verif as hooks;
@@ -23,10 +23,14 @@ pub use net::*;
 pub mod c01;
 pub mod c02;
 pub mod c03;
+pub mod c04;
 pub mod c06;
 pub mod c07;
+pub mod c09;
+pub mod c10;
 pub mod c11;
 pub mod c12;
+pub mod c13;
 pub mod c14;
 pub mod c15;
 pub mod c16;
@@ -115,10 +119,14 @@ pub fn select(property: &str, tier: Tier, seed: u64) -> Vec<Case> {
         "C01" => c01::cases(tier, seed),
         "C02" => c02::cases(tier, seed),
         "C03" => c03::cases(tier, seed),
+        "C04" => c04::cases(tier, seed),
         "C06" => c06::cases(tier, seed),
         "C07" => c07::cases(tier, seed),
+        "C09" => c09::cases(tier, seed),
+        "C10" => c10::cases(tier, seed),
         "C11" => c11::cases(tier, seed),
         "C12" => c12::cases(tier, seed),
+        "C13" => c13::cases(tier, seed),
         "C14" => c14::cases(tier, seed),
         "C15" => c15::cases(tier, seed),
         "C16" => c16::cases(tier, seed),
